@@ -1,5 +1,273 @@
 import PeliteModel.Spec.Convert
 import PeliteModel.Thm.C07
-/-! Helper lemmas for C06. -/
+import PeliteModel.Thm.C04
+/-! Helper lemmas for C06: algebra of `blit`, the section-copy step shared by `to_view` and
+`to_file`, the fold over the section table, the initial (zero filled + headers) vector. -/
 namespace Pelite.Pe
+
+/-! ### `byteAt` through `getElem?` -/
+
+theorem byteAt_eq (b : Bytes) (i : Nat) : byteAt b i = (b[i]?.getD 0).toNat := by
+  unfold byteAt; rw [Array.getD_eq_getD_getElem?]
+
+theorem byteAt_replicate_zero (n i : Nat) : byteAt (Array.replicate n (0 : UInt8)) i = 0 := by
+  rw [byteAt_eq, Array.getElem?_replicate]
+  split <;> rfl
+
+/-! ### `blit` -/
+
+theorem blit_size (dst src : Bytes) (doff soff len : Nat) (hd : doff + len ≤ dst.size)
+    (hs : soff + len ≤ src.size) : (blit dst doff src soff len).size = dst.size := by
+  unfold blit
+  simp only [Array.size_append, Array.size_extract]
+  omega
+
+theorem blit_getElem? (dst src : Bytes) (doff soff len : Nat) (hd : doff + len ≤ dst.size)
+    (hs : soff + len ≤ src.size) (i : Nat) :
+    (blit dst doff src soff len)[i]? =
+      if doff ≤ i ∧ i < doff + len then src[soff + (i - doff)]? else dst[i]? := by
+  unfold blit
+  simp only [Array.getElem?_append, Array.size_append, Array.size_extract, Array.getElem?_extract]
+  have e1 : min doff dst.size - 0 = doff := by omega
+  have e2 : min (soff + len) src.size - soff = len := by omega
+  have e3 : min dst.size dst.size - (doff + len) = dst.size - (doff + len) := by omega
+  rw [e1, e2, e3]
+  by_cases h1 : i < doff
+  · have a1 : i < doff + len := by omega
+    have a2 : ¬ (doff ≤ i ∧ i < doff + len) := by omega
+    rw [if_neg a2]
+    simp only [a1, h1, if_true, Nat.zero_add]
+  · by_cases h2 : i < doff + len
+    · have a2 : (doff ≤ i ∧ i < doff + len) := by omega
+      have a3 : i - doff < len := by omega
+      rw [if_pos a2]
+      simp only [h1, h2, a3, if_true, if_false]
+    · have a2 : ¬ (doff ≤ i ∧ i < doff + len) := by omega
+      rw [if_neg a2]
+      simp only [h2, if_false]
+      by_cases h3 : i < dst.size
+      · have a4 : i - (doff + len) < dst.size - (doff + len) := by omega
+        rw [if_pos a4]; congr 1; omega
+      · have a4 : ¬ i - (doff + len) < dst.size - (doff + len) := by omega
+        rw [if_neg a4]; simp; omega
+
+/-- bytes of the copied window come from the source … -/
+theorem byteAt_blit_in (dst src : Bytes) (doff soff len : Nat) (hd : doff + len ≤ dst.size)
+    (hs : soff + len ≤ src.size) (j : Nat) (hj : j < len) :
+    byteAt (blit dst doff src soff len) (doff + j) = byteAt src (soff + j) := by
+  rw [byteAt_eq, byteAt_eq, blit_getElem? dst src doff soff len hd hs, if_pos (by omega)]
+  have : doff + j - doff = j := by omega
+  rw [this]
+
+/-- … every other byte is the destination's. -/
+theorem byteAt_blit_out (dst src : Bytes) (doff soff len : Nat) (hd : doff + len ≤ dst.size)
+    (hs : soff + len ≤ src.size) (i : Nat) (hi : i < doff ∨ doff + len ≤ i) :
+    byteAt (blit dst doff src soff len) i = byteAt dst i := by
+  rw [byteAt_eq, byteAt_eq, blit_getElem? dst src doff soff len hd hs, if_neg (by omega)]
+
+/-! ### the section-copy step, generic in which pair is the destination -/
+
+/-- `dest = vec.get_mut(d .. d.wrapping_add(dl))`, `src = image.get(so .. so.wrapping_add(sl))`,
+copy the common prefix when both exist. -/
+def cstep (image vec : Bytes) (d dl so sl : Nat) : Bytes :=
+  let dend := wadd32 d dl
+  let send := wadd32 so sl
+  if d ≤ dend ∧ dend ≤ vec.size ∧ so ≤ send ∧ send ≤ image.size then
+    blit vec d image so (min (dend - d) (send - so))
+  else vec
+
+theorem toViewStep_eq (image vec : Bytes) (s : Sec) :
+    toViewStep image vec s = cstep image vec s.va s.vs s.prd s.rs := rfl
+theorem toFileStep_eq (image vec : Bytes) (s : Sec) :
+    toFileStep image vec s = cstep image vec s.prd s.rs s.va s.vs := rfl
+
+theorem cstep_size (image vec : Bytes) (d dl so sl : Nat) :
+    (cstep image vec d dl so sl).size = vec.size := by
+  unfold cstep
+  dsimp only
+  split
+  · rw [blit_size] <;> omega
+  · rfl
+
+/-- the step never touches a byte outside `[d, d + min dl sl)` (whether or not it copies) -/
+theorem cstep_out (image vec : Bytes) (d dl so sl : Nat) (i : Nat)
+    (hi : i < d ∨ d + min dl sl ≤ i) :
+    byteAt (cstep image vec d dl so sl) i = byteAt vec i := by
+  unfold cstep
+  dsimp only
+  split
+  · rename_i hg
+    have h1 : wadd32 d dl ≤ d + dl := Nat.mod_le _ _
+    have h2 : wadd32 so sl ≤ so + sl := Nat.mod_le _ _
+    rw [byteAt_blit_out] <;> omega
+  · rfl
+
+/-- when neither range wraps and both are inside their buffers, the common prefix is copied -/
+theorem cstep_in (image vec : Bytes) (d dl so sl : Nat)
+    (hd : d + dl < 4294967296) (hs : so + sl < 4294967296)
+    (hdv : d + dl ≤ vec.size) (hsi : so + sl ≤ image.size) (j : Nat) (hj : j < min dl sl) :
+    byteAt (cstep image vec d dl so sl) (d + j) = byteAt image (so + j) := by
+  unfold cstep
+  dsimp only
+  have h1 : wadd32 d dl = d + dl := Nat.mod_eq_of_lt hd
+  have h2 : wadd32 so sl = so + sl := Nat.mod_eq_of_lt hs
+  rw [h1, h2, if_pos (by omega)]
+  rw [byteAt_blit_in] <;> omega
+
+/-! ### folding the step over the section table -/
+
+section fold
+variable (image : Bytes) (D DL S SL : Sec → Nat)
+
+/-- the loop, for projections `D DL` (destination start / length) and `S SL` (source) -/
+def cfold (secs : List Sec) (vec : Bytes) : Bytes :=
+  secs.foldl (fun vec s => cstep image vec (D s) (DL s) (S s) (SL s)) vec
+
+theorem cfold_nil (vec : Bytes) : cfold image D DL S SL [] vec = vec := rfl
+theorem cfold_cons (s : Sec) (rest : List Sec) (vec : Bytes) :
+    cfold image D DL S SL (s :: rest) vec =
+      cfold image D DL S SL rest (cstep image vec (D s) (DL s) (S s) (SL s)) := rfl
+
+theorem cfold_size (secs : List Sec) (vec : Bytes) :
+    (cfold image D DL S SL secs vec).size = vec.size := by
+  induction secs generalizing vec with
+  | nil => rfl
+  | cons s rest ih => rw [cfold_cons, ih, cstep_size]
+
+theorem cfold_out (secs : List Sec) (vec : Bytes) (i : Nat)
+    (h : ∀ s ∈ secs, i < D s ∨ D s + min (DL s) (SL s) ≤ i) :
+    byteAt (cfold image D DL S SL secs vec) i = byteAt vec i := by
+  induction secs generalizing vec with
+  | nil => rfl
+  | cons s rest ih =>
+    rw [cfold_cons, ih _ (fun t ht => h t (List.mem_cons_of_mem _ ht)),
+      cstep_out _ _ _ _ _ _ _ (h s List.mem_cons_self)]
+
+theorem cfold_in (secs : List Sec) (vec : Bytes) (s : Sec) (hs : s ∈ secs)
+    (hp : secs.Pairwise (fun a b => D a + DL a ≤ D b ∨ D b + DL b ≤ D a))
+    (hd : D s + DL s < 4294967296) (hso : S s + SL s < 4294967296)
+    (hdv : D s + DL s ≤ vec.size) (hsi : S s + SL s ≤ image.size)
+    (j : Nat) (hj : j < min (DL s) (SL s)) :
+    byteAt (cfold image D DL S SL secs vec) (D s + j) = byteAt image (S s + j) := by
+  induction secs generalizing vec with
+  | nil => cases hs
+  | cons t rest ih =>
+    rw [cfold_cons]
+    obtain ⟨hhead, htail⟩ := List.pairwise_cons.1 hp
+    rcases List.mem_cons.1 hs with rfl | hmem
+    · rw [cfold_out]
+      · exact cstep_in image vec _ _ _ _ hd hso hdv hsi j hj
+      · intro u hu
+        have := hhead u hu
+        omega
+    · exact ih _ hmem htail (by rw [cstep_size]; exact hdv)
+
+end fold
+
+theorem toView_fold (image : Bytes) (secs : List Sec) (vec : Bytes) :
+    secs.foldl (toViewStep image) vec = cfold image Sec.va Sec.vs Sec.prd Sec.rs secs vec := rfl
+theorem toFile_fold (image : Bytes) (secs : List Sec) (vec : Bytes) :
+    secs.foldl (toFileStep image) vec = cfold image Sec.prd Sec.rs Sec.va Sec.vs secs vec := rfl
+
+/-! ### the initial vector: zero filled, then the headers -/
+
+def initVec (n : Nat) (b : Bytes) (soh : Nat) : Bytes := blit (Array.replicate n 0) 0 b 0 soh
+
+theorem initVec_size (n : Nat) (b : Bytes) (soh : Nat) (h1 : soh ≤ n) (h2 : soh ≤ b.size) :
+    (initVec n b soh).size = n := by
+  unfold initVec
+  rw [blit_size] <;> simp <;> omega
+
+theorem initVec_hdr (n : Nat) (b : Bytes) (soh : Nat) (h1 : soh ≤ n) (h2 : soh ≤ b.size)
+    (i : Nat) (hi : i < soh) : byteAt (initVec n b soh) i = byteAt b i := by
+  unfold initVec
+  have := byteAt_blit_in (Array.replicate n 0) b 0 0 soh (by simp; omega) (by omega) i hi
+  simpa using this
+
+theorem initVec_zero (n : Nat) (b : Bytes) (soh : Nat) (h1 : soh ≤ n) (h2 : soh ≤ b.size)
+    (i : Nat) (hi : soh ≤ i) : byteAt (initVec n b soh) i = 0 := by
+  unfold initVec
+  rw [byteAt_blit_out _ _ _ _ _ (by simp; omega) (by omega) _ (by omega), byteAt_replicate_zero]
+
+theorem toView_eq (v : View) :
+    v.toView = cfold v.b Sec.va Sec.vs Sec.prd Sec.rs v.secs
+      (initVec (sizeOfImage v.b) v.b (sizeOfHeaders v.b)) := rfl
+theorem toFile_eq (v : View) :
+    v.toFile = cfold v.b Sec.prd Sec.rs Sec.va Sec.vs v.secs
+      (initVec v.fileSize v.b (sizeOfHeaders v.b)) := rfl
+
+/-- what the constructor established about the two header sizes -/
+theorem accept_soh {f : Fmt} {k : Kind} {img : Img} {v : View} (hv : fromBytes f k img = .ok v) :
+    sizeOfHeaders v.b ≤ v.b.size ∧ sizeOfHeaders v.b ≤ sizeOfImage v.b := by
+  obtain ⟨ha, rfl⟩ := (fromBytes_ok_iff _ _ _ _).1 hv
+  unfold Accept at ha
+  dsimp only at ha
+  exact ⟨ha.2.2.2.2.2.2.2.2.1, ha.2.2.2.2.2.2.2.2.2.1⟩
+
+theorem foldl_max_ge (secs : List Sec) (g : Sec → Nat) (m : Nat) :
+    m ≤ secs.foldl (fun m s => max m (g s)) m := by
+  induction secs generalizing m with
+  | nil => exact Nat.le_refl _
+  | cons s rest ih => exact Nat.le_trans (Nat.le_max_left _ _) (ih _)
+
+theorem soh_le_fileSize {f : Fmt} {k : Kind} {img : Img} {v : View} (hv : fromBytes f k img = .ok v) :
+    sizeOfHeaders v.b ≤ v.fileSize := by
+  unfold View.fileSize
+  have := foldl_max_ge v.secs (fun s => wadd32 s.prd s.rs) (sizeOfHeaders v.b)
+  have := (accept_soh hv).2
+  omega
+
+theorem foldl_max_mem (secs : List Sec) (g : Sec → Nat) (m : Nat) (s : Sec) (hs : s ∈ secs) :
+    g s ≤ secs.foldl (fun m s => max m (g s)) m := by
+  induction secs generalizing m with
+  | nil => cases hs
+  | cons t rest ih =>
+    rcases List.mem_cons.1 hs with rfl | hmem
+    · exact Nat.le_trans (Nat.le_max_right _ _) (foldl_max_ge rest g _)
+    · exact ih _ hmem
+
+/-! ### two buffers with the same first `n` bytes have the same headers -/
+
+/-- the first `n` bytes agree -/
+def HdrAgree (n : Nat) (a b : Bytes) : Prop := ∀ i, i < n → byteAt a i = byteAt b i
+
+theorem HdrAgree.le16 {n : Nat} {a b : Bytes} (h : HdrAgree n a b) (o : Nat) (ho : o + 2 ≤ n) :
+    le16 a o = le16 b o := by
+  unfold Pelite.le16
+  rw [h o (by omega), h (o + 1) (by omega)]
+
+theorem HdrAgree.le32 {n : Nat} {a b : Bytes} (h : HdrAgree n a b) (o : Nat) (ho : o + 4 ≤ n) :
+    le32 a o = le32 b o := by
+  unfold Pelite.le32
+  rw [h o (by omega), h (o + 1) (by omega), h (o + 2) (by omega), h (o + 3) (by omega)]
+
+theorem HdrAgree.secAt {n : Nat} {a b : Bytes} (h : HdrAgree n a b) (o : Nat) (ho : o + 40 ≤ n) :
+    secAt a o = secAt b o := by
+  unfold Pelite.Pe.secAt
+  rw [h.le32 o (by omega), h.le32 (o + 4) (by omega), h.le32 (o + 8) (by omega),
+    h.le32 (o + 12) (by omega), h.le32 (o + 16) (by omega), h.le32 (o + 20) (by omega),
+    h.le32 (o + 36) (by omega)]
+
+/-- Every header quantity the conversions use is read below `n` once the NT headers and the
+declared section table end below `n` (in `b`). -/
+theorem HdrAgree.fields {n : Nat} {a b : Bytes} (h : HdrAgree n a b)
+    (hnt : eLfanew b + 120 ≤ n) (hst : secTable b + 40 * numberOfSections b ≤ n) :
+    sizeOfHeaders a = sizeOfHeaders b ∧ sizeOfImage a = sizeOfImage b ∧ sections a = sections b := by
+  have e0 : eLfanew a = eLfanew b := h.le32 60 (by omega)
+  have e1 : numberOfSections a = numberOfSections b := by
+    unfold numberOfSections; rw [e0]; exact h.le16 _ (by omega)
+  have e2 : sizeOfOptionalHeader a = sizeOfOptionalHeader b := by
+    unfold sizeOfOptionalHeader; rw [e0]; exact h.le16 _ (by omega)
+  have e3 : optOff a = optOff b := by unfold optOff; rw [e0]
+  have e4 : secTable a = secTable b := by unfold secTable; rw [e2, e3]
+  refine ⟨?_, ?_, ?_⟩
+  · unfold sizeOfHeaders; rw [e3]; unfold optOff; exact h.le32 _ (by omega)
+  · unfold sizeOfImage; rw [e3]; unfold optOff; exact h.le32 _ (by omega)
+  · unfold sections
+    rw [e1, e4]
+    apply List.map_congr_left
+    intro i hi
+    have := List.mem_range.1 hi
+    exact h.secAt _ (by omega)
+
 end Pelite.Pe
